@@ -112,6 +112,34 @@ func genC18(seed int64, tier string) *Scenario {
 		}
 		sc.Actors = append(sc.Actors, a)
 	}
+	if rng.Intn(3) == 0 {
+		// rollout churn: the split of a live rollout is changed again and again
+		// while cookie-bearing requests are evaluated against it
+		setup.Ops = append(setup.Ops[:3:3], append([]Op{
+			{Kind: "rollout_deploy", Service: "web", Targets: targets(1), DeployTimeout: 2 * time.Second, DrainTimeout: 300 * time.Millisecond},
+			{Kind: "rollout_set", Service: "web", Percent: 50, Allow: []string{"vip"}},
+		}, setup.Ops[3:]...)...)
+		roll := ActorSpec{Name: "opR"}
+		for i := 0; i < 6+rng.Intn(6); i++ {
+			o := Op{Kind: pick(rng, "rollout_set", "rollout_set", "rollout_set", "rollout_stop", "resume"), Service: "web", Percent: rng.Intn(101), Allow: pick(rng, nil, []string{"vip"}, []string{"a", "b", "vip"}), Delay: time.Duration(20+rng.Intn(100)) * time.Millisecond}
+			if i == 0 {
+				o.Delay += 100 * time.Millisecond
+			}
+			roll.Ops = append(roll.Ops, o)
+		}
+		sc.Actors = append(sc.Actors, roll)
+		for c := 0; c < 2; c++ {
+			a := ActorSpec{Name: fmt.Sprintf("cookie%d", c)}
+			for i := 0; i < 8+rng.Intn(8); i++ {
+				o := Op{Kind: "request", Path: "/x", Cookie: "kamal-rollout=" + pick(rng, "vip", "a", "b", "u1", "u2"), Delay: time.Duration(10+rng.Intn(60)) * time.Millisecond}
+				if i == 0 {
+					o.Delay += 100 * time.Millisecond
+				}
+				a.Ops = append(a.Ops, o)
+			}
+			sc.Actors = append(sc.Actors, a)
+		}
+	}
 	for c := 0; c < 2+rng.Intn(4); c++ {
 		a := ActorSpec{Name: fmt.Sprintf("client%d", c)}
 		for i := 0; i < 2+rng.Intn(6); i++ {
@@ -140,6 +168,7 @@ func genC18(seed int64, tier string) *Scenario {
 		}
 		sc.Actors = append(sc.Actors, a)
 	}
+	addCensus(sc)
 	return sc
 }
 
